@@ -75,16 +75,7 @@ func (e *Engine) doCall(st *State, fr *Frame, res ssa.Value, c *ssa.CallCommon, 
 		e.callAssertHooks(st, fr, "<dynamic>", args, ins.Pos())
 		eff := &Effect{Keys: map[string]bool{}}
 		e.P.callEffect(eff, c, fr.fn)
-		var cands []*ssa.Function
-		if sig, ok := c.Value.Type().Underlying().(*types.Signature); ok {
-			e.P.buildCallGraph()
-			for _, f := range e.P.cgDyn {
-				if sameSig(f.Signature, sig) {
-					cands = append(cands, f)
-				}
-			}
-		}
-		e.havocGhosts(st, cands, false)
+		e.havocGhosts(st, e.P.siteCallees(fr.fn, c), false)
 		for _, a := range args {
 			e.escape(st, a)
 		}
@@ -234,9 +225,9 @@ func (e *Engine) canInline(callee *ssa.Function, st *State) bool {
 		return n <= 40 && len(e.P.loopsOf(callee)) == 0
 	}
 	if len(e.P.loopsOf(callee)) > 0 {
-		return n < 120
+		return n <= 40
 	}
-	return n < 400
+	return n <= 80
 }
 
 func (e *Engine) newFrame(st *State, callee *ssa.Function, env []Val, args []Val, res ssa.Value) *Frame {
@@ -598,7 +589,7 @@ func (e *Engine) invoke(st *State, fr *Frame, res ssa.Value, c *ssa.CallCommon, 
 	eff := &Effect{Keys: map[string]bool{}}
 	e.P.callEffect(eff, c, fr.fn)
 	e.havocCalls["invoke "+typeName(c.Value.Type())+"."+mname+" ("+effSummary(eff)+")"]++
-	e.havocGhosts(st, e.P.methodsImplementing(c.Value.Type(), c.Method), false)
+	e.havocGhosts(st, e.P.siteCallees(fr.fn, c), false)
 	for _, a := range args {
 		e.escape(st, a)
 	}
@@ -975,6 +966,7 @@ func (e *Engine) applyContract(st *State, fr *Frame, res ssa.Value, callee *ssa.
 			st.assume(g)
 		}
 	}
+	e.variantCheck(st, fr, callee, con, env, pos)
 	pre := st.clone()
 	if !con.has("pure") {
 		e.havocGhosts(st, []*ssa.Function{callee}, false)
@@ -1434,4 +1426,46 @@ func lastName(s string) string {
 		return s[i+1:]
 	}
 	return s
+}
+
+
+func rankOf(con *Contract) int {
+	r := 0
+	for _, c := range con.get("rank") {
+		if len(c.Args) > 0 {
+			fmt.Sscanf(c.Args[0], "%d", &r)
+		}
+	}
+	return r
+}
+
+// variantCheck (K4): a call between functions that both declare `decreases` must decrease the
+// pair (measure, rank) lexicographically; the measure is bounded below by 0.
+func (e *Engine) variantCheck(st *State, fr *Frame, callee *ssa.Function, con *Contract, env *SpecEnv, pos token.Pos) {
+	if e.con == nil || fr == nil || fr.fn != e.fn {
+		return
+	}
+	rd, cd := e.con.get("decreases"), con.get("decreases")
+	if len(rd) == 0 || len(cd) == 0 {
+		return
+	}
+	renv := e.rootEnv(e.entry, nil)
+	renv.fr = nil
+	m0 := e.evalSpec(e.entry, e.entry, rd[0].Expr, renv)
+	m1 := e.evalSpec(st, st, cd[0].Expr, env)
+	m0, m1 = e.unify(m0, m1)
+	if m0.K != KInt || m1.K != KInt {
+		e.specErr("decreases expressions must be integers")
+		return
+	}
+	w := e.widthOf(m0)
+	zero := bvLit(0, w)
+	var goal string
+	if rankOf(con) < rankOf(e.con) {
+		goal = and("(bvsle "+m1.T+" "+m0.T+")", "(bvsge "+m1.T+" "+zero+")")
+	} else {
+		goal = and("(bvslt "+m1.T+" "+m0.T+")", "(bvsge "+m1.T+" "+zero+")")
+	}
+	name, where := e.siteName(fr, "variant", pos, shortFn(callee))
+	e.oblige(st, name, "K4", "recursion measure ("+rd[0].Text+", rank) decreases at the call and stays >= 0", goal, where, rd[0].Props)
 }
